@@ -225,6 +225,88 @@ def check_bounded_calls(led, rule, fi, cfg, call_pred, what, stated, cls_methods
     return total
 
 
+def _heal_table(p, led, cl, heal):
+    """feedback and outcome clauses of the healing loop, decided on every interpreted path (fdai): the generator
+    returns anything, the validator accepts or rejects each attempt"""
+    from ..fdai import Interp, Obj, Unknown, PyRaise, explore, Imprecise, stub
+    efp = p.cls("EnhancedFoldedProtein", "operon_ai/organelles/chaperone.py")
+    probs = {"feedback": [], "valid": [], "exhausted": [], "calls": []}
+    npaths = 0
+    for retries in (0, 1, 2, 3):
+        def go(o, _r=retries):
+            it = Interp(p, o)
+            glog, folds = [], []
+
+            @stub
+            def generator(interp, args, kwargs):
+                ctx = args[1] if len(args) > 1 else kwargs.get("error_context")
+                glog.append(ctx)
+                return f"raw{len(glog) - 1}"
+
+            def fold(interp, args, kwargs):
+                i = len(folds)
+                ok = interp.o.choose(2, f"attempt {i}: schema-valid / invalid") == 0
+                fp = interp.instantiate(efp, [], dict(valid=ok, structure=(Unknown(f"structure{i}") if ok else None), raw_peptide_chain=args[1] if len(args) > 1 else "",
+                                                      error_trace=(None if ok else f"ERR#{i}#"), confidence=0.9))
+                folds.append(fp)
+                return fp
+            it.stubs["Chaperone.fold_enhanced"] = fold
+            it.stubs["Chaperone.fold"] = fold
+            chap = Obj(p.cls("Chaperone", "operon_ai/organelles/chaperone.py"), {}, tag="chaperone")
+            loop = it.instantiate(cl, [], dict(generator=generator, chaperone=chap, schema=Unknown("Schema"), max_retries=_r, silent=True))
+            try:
+                r = it.call_fi(heal, [loop, "the prompt"], {})
+            except PyRaise as e:
+                return dict(raised=repr(e.exc))
+            f = r.fields if isinstance(r, Obj) else {}
+            return dict(glog=glog, folds=folds, outcome=getattr(f.get("outcome"), "name", repr(f.get("outcome"))), folded=f.get("folded"), conf=f.get("final_confidence"), tagged=f.get("ubiquitin_tagged"))
+        try:
+            paths = [r for _, r in explore(go, max_paths=200)]
+        except Imprecise as e:
+            raise AnchorError(f"ChaperoneLoop.heal could not be interpreted: {e}")
+        npaths += len(paths)
+        for r in paths:
+            tag = f"max_retries={retries}"
+            if "raised" in r:
+                probs["calls"].append(f"{tag}: heal raises {r['raised']}")
+                continue
+            n = len(r["glog"])
+            if n > retries + 1:
+                probs["calls"].append(f"{tag}: generator called {n} times")
+            for i, ctx in enumerate(r["glog"]):
+                if i == 0:
+                    if ctx is not None:
+                        probs["feedback"].append(f"{tag}: first attempt already carries an error context {ctx!r}")
+                else:
+                    want = f"ERR#{i - 1}#"
+                    if not (isinstance(ctx, str) and want in ctx) and not (isinstance(ctx, Unknown) and want in ctx.sym):
+                        probs["feedback"].append(f"{tag}: attempt {i} is fed {ctx!r}, which does not carry the error of attempt {i - 1}")
+            valids = [fp.fields["valid"] for fp in r["folds"]]
+            if r["outcome"] in ("HEALED", "VALID_FIRST_TRY"):
+                fo = r["folded"]
+                if not (r["folds"] and fo is r["folds"][-1] and valids[-1] is True):
+                    probs["valid"].append(f"{tag}: outcome {r['outcome']} with attempts valid={valids}: the reported structure is not the schema-valid result of the last attempt")
+                if r["tagged"] is not False:
+                    probs["valid"].append(f"{tag}: a healed result is tagged for degradation")
+                if (r["outcome"] == "VALID_FIRST_TRY") != (len(valids) == 1):
+                    probs["valid"].append(f"{tag}: outcome {r['outcome']} after {len(valids)} attempt(s)")
+            else:
+                if any(valids):
+                    probs["exhausted"].append(f"{tag}: a schema-valid attempt ({valids}) is reported as {r['outcome']}")
+                if not (r["outcome"] == "DEGRADED" and r["folded"] is None and r["tagged"] is True and isinstance(r["conf"], (int, float)) and r["conf"] == 0):
+                    probs["exhausted"].append(f"{tag}: exhausted result is outcome={r['outcome']} folded={'None' if r['folded'] is None else 'set'} confidence={r['conf']!r} tagged={r['tagged']!r} (expected DEGRADED, no structure, 0, tagged)")
+                if n != retries + 1:
+                    probs["exhausted"].append(f"{tag}: gave up after {n} generator call(s), the budget is {retries + 1}")
+    titles = {"feedback": "ChaperoneLoop.heal ▸ retry is fed the previous attempt's error", "valid": "ChaperoneLoop.heal ▸ HEALED/VALID result carries a validated structure",
+              "exhausted": "ChaperoneLoop.heal ▸ exhausted result", "calls": "ChaperoneLoop.heal ▸ generator calls within budget on every interpreted path"}
+    for k, title in titles.items():
+        mine = sorted(set(probs[k]))
+        if mine:
+            led.fail("C18-R1", title, where(heal, heal.node), mine[0], path=mine[:6])
+        else:
+            led.ok("C18-R1", title, where(heal, heal.node), f"{npaths} path(s) over max_retries 0–3 × every valid/invalid sequence of attempts")
+
+
 def run(p, led, tier):
     res = Resolver(p)
     led.explanation = (
@@ -250,69 +332,7 @@ def run(p, led, tier):
         raise AnchorError("ChaperoneLoop.heal not found")
     cfg = cfg_of(heal, led)
     check_bounded_calls(led, "C18-R1", heal, cfg, lambda c: is_self_attr(c.func, "generator"), "generator call", {"max_retries": 1, "": 1}, list(cl.methods.values()))
-    gcalls = [c for c in walk_no_nested(heal.node) if isinstance(c, ast.Call) and is_self_attr(c.func, "generator")]
-    if gcalls:
-        g = gcalls[0]
-        key = "ChaperoneLoop.heal ▸ retry is fed the previous attempt's error"
-        if len(g.args) < 2 or not isinstance(g.args[1], ast.Name):
-            led.fail("C18-R1", key, where(heal, g), "generator is not called with an error-context variable")
-        else:
-            ev = g.args[1].id
-            loop = _enclosing_loop(g, heal.node)
-            defs = [n for n in walk_no_nested(heal.node) if isinstance(n, (ast.Assign, ast.AnnAssign)) and _targets_name(n, ev)]
-            outside = [n for n in defs if not _inside(n, loop)]
-            inside = [n for n in defs if _inside(n, loop)]
-            ok_init = len(outside) == 1 and isinstance(outside[0].value, ast.Constant) and outside[0].value.value is None
-            fold_calls = [c for c in walk_no_nested(heal.node) if isinstance(c, ast.Call) and isinstance(c.func, ast.Attribute) and c.func.attr in ("fold_enhanced", "fold")]
-            foldvar = None
-            for n in walk_no_nested(heal.node):
-                if isinstance(n, ast.Assign) and n.value in fold_calls and isinstance(n.targets[0], ast.Name):
-                    foldvar = n.targets[0].id
-            dep_ok = bool(inside) and all(_depends_on(heal, n.value, foldvar, loop) for n in inside) if foldvar else False
-            # the in-loop definition must be executed on every failing path back to the head
-            head = cfg.node_of(loop.iter if isinstance(loop, ast.For) else loop.test)
-            inside_nodes = {cfg.node_of(n) for n in inside}
-            seen = cfg.reach(start_edges=[(head, m, l) for m, l in head.succ if l == "T"], avoid=inside_nodes)
-            stale = head in seen
-            if ok_init and dep_ok and not stale:
-                led.ok("C18-R1", key, where(heal, g), f"`{ev}` is None on entry and, on every path back to the loop head, reassigned from `{foldvar}.error_trace` of this iteration")
-            else:
-                why = []
-                if not ok_init:
-                    why.append(f"`{ev}` is not initialised to None once before the loop")
-                if not dep_ok:
-                    why.append(f"the in-loop definition of `{ev}` does not derive from the fold result's error")
-                if stale:
-                    why.append(f"a failing iteration can reach the next attempt without updating `{ev}`")
-                led.fail("C18-R1", key, where(heal, g), "; ".join(why))
-        # results
-        rets = [n for n in walk_no_nested(heal.node) if isinstance(n, ast.Return) and isinstance(n.value, ast.Call) and src(n.value.func) == "HealingResult"]
-        for r in rets:
-            kws = {k.arg: k.value for k in r.value.keywords}
-            rn = cfg.node_of(r)
-            tagged = kws.get("ubiquitin_tagged")
-            if isinstance(tagged, ast.Constant) and tagged.value is True:
-                key = "ChaperoneLoop.heal ▸ exhausted result"
-                okk = (isinstance(kws.get("folded"), ast.Constant) and kws["folded"].value is None and isinstance(kws.get("final_confidence"), ast.Constant)
-                       and kws["final_confidence"].value == 0 and "DEGRADED" in src(kws.get("outcome")))
-                loop = _enclosing_loop(gcalls[0], heal.node)
-                after_loop = not _inside(r, loop)
-                if okk and after_loop:
-                    led.ok("C18-R1", key, where(heal, r), "after the loop: tagged for degradation, confidence 0.0, no structure")
-                else:
-                    led.fail("C18-R1", key, where(heal, r), "exhausted result is not (DEGRADED, no structure, confidence 0, tagged)")
-            else:
-                key = "ChaperoneLoop.heal ▸ HEALED/VALID result carries a validated structure"
-                facts = guard_facts(cfg, rn)
-                fv = src(kws.get("folded")) if kws.get("folded") is not None else None
-                valid = [f for f in facts if isinstance(f[0], ast.Attribute) and f[0].attr == "valid" and src(f[0].value) == fv and f[1] is True]
-                untagged = isinstance(tagged, ast.Constant) and tagged.value is False
-                if valid and fv and untagged and "DEGRADED" not in src(kws.get("outcome")):
-                    led.ok("C18-R1", key, where(heal, r), f"dominated by `{fv}.valid` being true; `{fv}` is this iteration's fold result")
-                else:
-                    led.fail("C18-R1", key, where(heal, r), "a success outcome is returned without the fold result having been tested valid (or with a different object)")
-        if len(rets) < 2:
-            led.fail("C18-R1", "ChaperoneLoop.heal ▸ results", where(heal, heal.node), "expected a success and an exhausted HealingResult site")
+    _heal_table(p, led, cl, heal)
 
     # ---------------- R2 swarm
     sw = p.cls("RegenerativeSwarm", "operon_ai/healing/regenerative_swarm.py")
